@@ -36,3 +36,5 @@ mod c36;
 mod c35;
 #[cfg(kani)]
 mod c25;
+#[cfg(kani)]
+mod c03;
